@@ -203,14 +203,22 @@ func (r *standardRenderer) flush() {
 	if flushQueuedMessages {
 		// Dump the lines we've queued up for printing.
 		for _, line := range r.queuedMessageLines {
-			// Erase the rest of the row the line ends on, so that nothing
+			// Erase the rest of every row the line ends on, so that nothing
 			// of the previous frame stays glued to it. A line wider than
-			// the terminal wraps; only when it ends exactly at the right
-			// margin is there nothing left to erase (and an escape
-			// sequence there would affect the last cell of the row).
-			if w := ansi.StringWidth(line); r.width > 0 && (w == 0 || w%r.width != 0) {
-				// Removing previously rendered content at the end of line.
-				line = line + ansi.EraseLineRight
+			// the terminal wraps, and a wide character that does not fit
+			// in the last column wraps early, leaving that column alone.
+			// Only a row that ends exactly at the right margin has nothing
+			// left to erase (and an escape sequence there would affect the
+			// last cell of the row).
+			if r.width > 0 {
+				rows := strings.Split(ansi.Hardwrap(line, r.width, true), "\n")
+				for i, row := range rows {
+					if ansi.StringWidth(row) < r.width {
+						// Removing previously rendered content at the end of line.
+						rows[i] = row + ansi.EraseLineRight
+					}
+				}
+				line = strings.Join(rows, "")
 			}
 
 			_, _ = buf.WriteString(line)
